@@ -219,6 +219,11 @@ def extract(missing):
         limited = limited and len(re.findall(r"&mut %s\b" % re.escape(m.group(1)), dc)) >= 1 and \
             bool(re.search(r"Ok\(Bytes::from\(%s\.buf\)\)" % re.escape(m.group(1)), dc))
     f["decompressOutputLimited"] = limited
+    # 8. try_init refuses a descriptor whose END offset does not fit 64 bits (F12 repair)
+    ti = fn_body(arch, "try_init") or ""
+    f["chunkEndOffsetChecked"] = bool(re.search(
+        r"\.checked_add\(dict\.archive_offset\)\s*\.filter\(\|(\w+)\| \1\.checked_add\(u64::from\(dict\.archive_size\)\)\.is_some\(\)\)\s*"
+        r"\.ok_or_else\(\|\| ArchiveError::invalid_archive\(", ti))
     return f
 
 
@@ -317,6 +322,8 @@ def gen(f):
         'def httpSingleStopIf : String := "%s"' % (f.get("httpSingleStopIf") or "unknown"),
         "/-- `CompressionAlgorithm::decompress` writes into a buffer that refuses more than the declared size -/",
         "def decompressOutputLimited : Bool := %s" % ("true" if f.get("decompressOutputLimited") else "false"),
+        "/-- `try_init` also checks that `chunk_data_offset + archive_offset + archive_size` fits 64 bits -/",
+        "def chunkEndOffsetChecked : Bool := %s" % ("true" if f.get("chunkEndOffsetChecked") else "false"),
         "/-- `poll_read_fail` truncates a body frame longer than what is still requested -/",
         "def httpFragmentClipped : Bool := %s" % ("true" if f.get("httpFragmentClipped") else "false"),
         "",
